@@ -54,7 +54,11 @@ prop("C11", True, "A",
      'The complete finite product (10k cases quick, more shard counts thorough) is executed; on Err the track/store must equal its pre-image with no notification, on Ok the model state with exactly one notification and the stated history rule.',
      'Trusted: the reference model and the harness callbacks (mutate-then-fail, so a missing rollback is visible). Metric state is read through a muted probe on a clone.',
      "7/C11")
-prop("C12", False, "A", "", "", NB, "7/C12")
+prop("C12", True, "A",
+     "exhaustive enumeration of all call histories up to depth 4 over a 12-list detection alphabet on the real VisualSort (and BatchVisualSort on a sub-grid) for an option grid (16-point covering subset quick, all 512 combinations thorough); every decision re-derived independently from the observable galleries of the pre-call store",
+     "Every history of the bounded space is executed; per call the oracle recomputes usable features, collected counts, in-threshold votes, vote weights, contests and the positional fallback (own f64 feature distances, own clipper / Mahalanobis, brute-force assignment) and checks: visual attachments only with a qualifying claim and never against a heavier claimant, the heaviest claimant gets the track, losers are not attached to the contested track, claim-less detections are associated positionally and optimally among tracks not taken by appearance, new tracks are not reported visual.",
+     "Trusted: the re-derivation in engine/src/props/c12.rs and assoc.rs. Decisions within 1e-3 of a threshold / weights within 1e-4 of each other are accepted either way and counted. Only what the statement fixes is demanded (e.g. the fate of a contest loser beyond 'not on the contested track' is not).",
+     "7/C12")
 prop("C13", True, "A",
      'exhaustive enumeration of all quality words up to length 6 (8 thorough) and all periodic words of length <= 4 unrolled to 60 (300) updates on the real VisualSort / BatchVisualSort (galleries) and all four trackers (histories), for visual_max_observations 1..4 (1..8) x history lengths, with the gallery and the histories read from the live store after every update',
      'Every word of the bounded alphabet is executed; after each update: entries and stored features <= max and equal to the reported count, newcomer stored iff collectable, at most one eviction and only of a lowest-quality feature and only at capacity, nothing else changes, histories = last min(len, H) entries in arrival order, record echoes the last entries, wasted conversion echoes the histories.',
